@@ -154,9 +154,10 @@ def common_hash():
     return file_hash(glob.glob(VERIF + "/src/common/*"))
 
 
-def ensure_engine():
+def ensure_engine(tsan=False):
     """engine.o: the only TU that includes rapidcheck (depends on /verif sources only)."""
-    d = os.path.join(BUILD, "engine-" + sha(file_hash([VERIF + "/src/common/engine.cpp", VERIF + "/src/common/engine.h"]), SAN_COMMON)[:16])
+    flags = "-fsanitize=thread -DVERIF_TSAN=1" if tsan else SAN_COMMON
+    d = os.path.join(BUILD, "engine-" + sha(file_hash([VERIF + "/src/common/engine.cpp", VERIF + "/src/common/engine.h"]), flags)[:16])
     out = os.path.join(d, "engine.o")
     if os.path.exists(out):
         return out
@@ -165,12 +166,12 @@ def ensure_engine():
             return out
         os.makedirs(d, exist_ok=True)
         t0 = time.time()
-        rc, o = run(["clang++", "-std=gnu++17", "-g", "-O1"] + SAN_COMMON.split() + ["-c", VERIF + "/src/common/engine.cpp", "-o", out + ".tmp"])
+        rc, o = run(["clang++", "-std=gnu++17", "-g", "-O1", "-fno-omit-frame-pointer"] + flags.split() + ["-c", VERIF + "/src/common/engine.cpp", "-o", out + ".tmp"])
         if rc:
             log("BUILD FAILED engine.cpp:\n" + o[-4000:])
             raise SystemExit(3)
         os.rename(out + ".tmp", out)
-        for old in sorted(glob.glob(BUILD + "/engine-*"), key=os.path.getmtime, reverse=True)[2:]:
+        for old in sorted(glob.glob(BUILD + "/engine-*"), key=os.path.getmtime, reverse=True)[4:]:
             shutil.rmtree(old, ignore_errors=True)
         log("[build] engine.o in %.1fs" % (time.time() - t0))
     return out
@@ -190,8 +191,8 @@ def ensure_harness(name, kind="rcfork", extra_flags=(), source=None):
     out = os.path.join(keydir(), "bin", "%s-%s" % (name, h))
     if os.path.exists(out):
         return out
-    lib = ensure_lib("tsan" if kind == "tsan" else "san")
-    eng = ensure_engine() if kind == "rcfork" else None
+    lib = ensure_lib("tsan" if kind in ("tsan", "rcfork-tsan") else "san")
+    eng = ensure_engine() if kind == "rcfork" else ensure_engine(tsan=True) if kind == "rcfork-tsan" else None
     with Lock(".lock-" + name):
         if os.path.exists(out):
             return out
@@ -209,6 +210,8 @@ def ensure_harness(name, kind="rcfork", extra_flags=(), source=None):
             cmd = base + ["-fsanitize=fuzzer,address,undefined", "-fno-sanitize=pointer-overflow,nonnull-attribute", "-fno-sanitize-recover=undefined", src, lib] + LINK_LIBS.split()
         elif kind == "tsan":
             cmd = base + ["-fsanitize=thread", src, lib] + LINK_LIBS.split()
+        elif kind == "rcfork-tsan":
+            cmd = base + ["-fsanitize=thread", "-DVERIF_TSAN=1", src, eng, lib, "-lrapidcheck"] + LINK_LIBS.split()
         else:
             cmd = base + SAN_COMMON.split() + [src, lib] + LINK_LIBS.split()
         rc, o = run(cmd + ["-o", out + ".tmp"])
